@@ -140,12 +140,20 @@ func (s *promiseStack) pop() *Promise {
 	return p
 }
 
+// popUntil pops the promises above p and eliminates the remaining choices of p.
+// It leaves p itself in the stack so that it also works for the following cuts in the same clause.
 func (s *promiseStack) popUntil(p *Promise) {
-	for len(*s) > 0 {
-		if pop := s.pop(); pop == p {
-			break
-		}
+	i := len(*s) - 1
+	for i >= 0 && (*s)[i] != p {
+		i--
 	}
+	if i < 0 { // p is not in the stack. There's nothing to cut.
+		return
+	}
+	for len(*s) > i+1 {
+		_ = s.pop()
+	}
+	p.delayed = nil
 }
 
 func (s *promiseStack) recover(err error) error {
